@@ -759,7 +759,11 @@ func drawInt(r *fw.RNG, k reflect.Kind, old model.Val, outside bool) model.Val {
 	}
 	for tries := 0; ; tries++ {
 		var v model.Val
-		switch r.Intn(8) {
+		switch r.Intn(9) {
+		case 7:
+			// around 2^63, where unsigned Go values stop fitting the data model's int64 accessor: MaxInt64-1,
+			// MaxInt64, 2^63, 2^63+1 (a surviving mechanical mutant turned `u > MaxInt64` into `>=` unnoticed)
+			v = model.Uint(uint64(math.MaxInt64) - 1 + uint64(r.Intn(4)))
 		case 0:
 			v = model.Uint(hi)
 		case 1:
